@@ -92,7 +92,8 @@ static void any_generator_ids() {
 }
 // PARENT_MODE: 0 none (no active span), 1 explicit valid SpanContext, 2 explicit Context holding a valid span,
 //              3 explicit Context without span marked root while an active span exists, 4 active span only,
-//              5 explicit invalid SpanContext while an active span exists
+//              5 explicit invalid SpanContext while an active span exists,
+//              6 explicit Context that holds no span and is NOT marked root while an active span exists
 #ifndef PARENT_MODE
 #define PARENT_MODE 1
 #endif
@@ -123,6 +124,10 @@ ENTRY h_start_span() {
   parent = any_context(true); has_parent = true;
   tok = context::RuntimeContext::Attach(context::RuntimeContext::GetCurrent().SetValue(trace::kSpanKey, nostd::shared_ptr<trace::Span>(new trace::DefaultSpan(parent))));
   opts.parent = any_context(false);
+#elif PARENT_MODE == 6
+  parent = any_context(true); has_parent = true;
+  tok = context::RuntimeContext::Attach(context::RuntimeContext::GetCurrent().SetValue(trace::kSpanKey, nostd::shared_ptr<trace::Span>(new trace::DefaultSpan(parent))));
+  { context::Context c; bool with_key = nondet_bool(); opts.parent = with_key ? c.SetValue(trace::kIsRootSpanKey, false) : c; }
 #endif
   NoAttrs a; NoLinks l;
   nostd::shared_ptr<trace::Span> span = tracer->StartSpan("n", a, l, opts);
